@@ -2,6 +2,9 @@
 local variables supplied (havocked) by the harness.  The loop is located structurally (by the shape of its header), so a
 changed source is a changed encoding; if the loop cannot be found the harness stops (inconclusive)."""
 import ast
+import enum
+
+import z3
 
 from . import symx
 
@@ -27,17 +30,163 @@ def find_while(fn, test_src):
     return hits[0]
 
 
+def _assigned_names(stmts):
+    out = {}
+    for s in stmts:
+        for n in ast.walk(s):
+            if isinstance(n, ast.Name) and isinstance(n.ctx, ast.Store):
+                out[n.id] = out.get(n.id, 0) + 1
+    return out
+
+
+def _preamble_defs(fn, loop):
+    """`name -> rhs expression` for the names that the function assigns exactly once, by a top-level statement before its
+    first loop (`x = e`, or `x, y = e1, e2`), and nowhere else (so they are constant through the loop)"""
+    node = symx.func_ast(fn)
+    counts = _assigned_names(node.body)
+    pre = []
+    for s in node.body:
+        if any(isinstance(n, (ast.For, ast.While)) for n in ast.walk(s)):
+            break
+        pre.append(s)
+    defs = {}
+    for s in pre:
+        if not isinstance(s, ast.Assign) or len(s.targets) != 1:
+            continue
+        t, v = s.targets[0], s.value
+        pairs = []
+        if isinstance(t, ast.Name):
+            pairs = [(t, v)]
+        elif isinstance(t, ast.Tuple) and isinstance(v, ast.Tuple) and len(t.elts) == len(v.elts) \
+                and all(isinstance(x, ast.Name) for x in t.elts):
+            pairs = list(zip(t.elts, v.elts))
+        for tt, vv in pairs:
+            if counts.get(tt.id) == 1:
+                defs[tt.id] = vv
+    return defs
+
+
+def _pure_rhs(e):
+    """attribute / name / subscript / constant / conditional / comparison reads only (properties are attribute reads)"""
+    return all(isinstance(n, (ast.Attribute, ast.Name, ast.Subscript, ast.Constant, ast.IfExp, ast.Compare, ast.Load,
+                              ast.Is, ast.IsNot, ast.Eq, ast.NotEq, ast.BoolOp, ast.And, ast.Or, ast.Not, ast.UnaryOp))
+               for n in ast.walk(e))
+
+
+def derive_locals(eng, fn, stmts, locs):
+    """Locals that the loop body reads, that the harness does not supply and that the function sets once before its loops
+    from a pure read of the state (`declarer = playing_env.declarer`, `seat = self.player.formal_name`): their value at
+    the start of the iteration is that read evaluated on the iteration's start state.  This is exact if the read is
+    stable from the preamble to the iteration; `check_derived` re-evaluates it after the iteration and the harness stops
+    (inconclusive) if the iteration changed it."""
+    fn = getattr(fn, '__func__', fn)
+    defs = _preamble_defs(fn, None)
+    need = set()
+    for s in stmts:
+        for n in ast.walk(s):
+            if isinstance(n, ast.Name) and isinstance(n.ctx, ast.Load):
+                need.add(n.id)
+    derived = {}
+    progress = True
+    while progress:
+        progress = False
+        for name in sorted(need):
+            if name in locs or name in derived or name not in defs or not _pure_rhs(defs[name]):
+                continue
+            deps = {n.id for n in ast.walk(defs[name]) if isinstance(n, ast.Name)}
+            missing = [d for d in deps if d in defs and d not in locs and d not in derived]
+            if missing:
+                need.update(missing)
+                progress = True
+                continue
+            frame = symx.Frame(eng, fn, {**locs, **derived})
+            derived[name] = frame.ev(defs[name])
+            progress = True
+    return derived, defs
+
+
+def _same(eng, a, b):
+    if a is b:
+        return True
+    if isinstance(a, (symx.SEnum, symx.SInt, symx.SBool)) or isinstance(b, (symx.SEnum, symx.SInt, symx.SBool)):
+        try:
+            za, zb = (symx.zenum(x) if isinstance(x, (symx.SEnum, enum.Enum)) else symx.zint(x) for x in (a, b))
+        except symx.Unsupported:
+            return False
+        d = z3.simplify(za != zb)
+        if z3.is_false(d):
+            return True
+        s = z3.Solver()
+        s.add(*eng.pc)
+        s.add(d)
+        return str(s.check()) == 'unsat'
+    if isinstance(a, symx.SStr) or isinstance(b, symx.SStr):
+        from . import sstr
+        e = sstr.eq(a, b)
+        if isinstance(e, bool):
+            return e
+        s = z3.Solver()
+        s.add(*eng.pc)
+        s.add(z3.Not(e))
+        return str(s.check()) == 'unsat'
+    if isinstance(a, symx.Sym) or isinstance(b, symx.Sym):
+        return False
+    return type(a) is type(b) and a == b
+
+
+def check_derived(eng, fn, derived, defs, locs):
+    fn = getattr(fn, '__func__', fn)
+    for name, v in derived.items():
+        frame = symx.Frame(eng, fn, {**locs, **derived})
+        v2 = frame.ev(defs[name])
+        if not _same(eng, v, v2):
+            raise symx.Unsupported(f'local `{name}` of {fn.__qualname__} (set before the loop) is not stable through the iteration')
+
+
+def run_stmts(eng, fn, stmts, locs):
+    """the statements in a frame of fn with the given locals (plus derived preamble locals); returns
+    ('normal'|'continue'|'break', frame)"""
+    fn = getattr(fn, '__func__', fn)
+    derived, defs = derive_locals(eng, fn, stmts, locs)
+    frame = symx.Frame(eng, fn, {**locs, **derived})
+    st = 'normal'
+    try:
+        frame.exec_block(stmts)
+    except symx.ContinueEx:
+        st = 'continue'
+    except symx.BreakEx:
+        st = 'break'
+    check_derived(eng, fn, derived, defs, {k: frame.locs[k] for k in locs if k in frame.locs})
+    return st, frame
+
+
 def run_body(eng, fn, loop, locs):
     """one iteration of the loop body in a frame of fn with the given locals; returns ('normal'|'continue'|'break', frame)"""
-    fn = getattr(fn, '__func__', fn)
-    frame = symx.Frame(eng, fn, dict(locs))
-    try:
-        frame.exec_block(loop.body)
-    except symx.ContinueEx:
-        return 'continue', frame
-    except symx.BreakEx:
-        return 'break', frame
-    return 'normal', frame
+    return run_stmts(eng, fn, loop.body, locs)
+
+
+def find_nest(fn, outer, inner):
+    """The loop nest that enumerates (outer, inner): either `for <outer> in ..: <prefix>; for <inner> in ..: <body>` or a
+    single loop over both (`for outer, inner in itertools.product(..)`).  Returns (prefix, body, form): the statements
+    of the outer body before the inner loop (they run when the inner loop starts) and the inner body."""
+    loops = [n for n in find_loops(fn) if isinstance(n, ast.For)]
+    flat = [n for n in loops if isinstance(n.target, ast.Tuple) and [getattr(x, 'id', None) for x in n.target.elts] == [outer, inner]]
+    nested = []
+    for o in loops:
+        if isinstance(o.target, ast.Name) and o.target.id == outer:
+            for k, s in enumerate(o.body):
+                if isinstance(s, ast.For) and isinstance(s.target, ast.Name) and s.target.id == inner:
+                    if any(isinstance(x, (ast.For, ast.While)) for y in o.body[:k] + o.body[k + 1:] for x in ast.walk(y)):
+                        continue
+                    if o.body[k + 1:]:
+                        continue          # statements after the inner loop: not the shape this cut handles
+                    nested.append((o.body[:k], s.body))
+    if len(flat) + len(nested) != 1:
+        raise symx.Unsupported(f'loop nest over ({outer}, {inner}) not found exactly once in {fn.__qualname__} '
+                               f'({len(nested)} nested, {len(flat)} flattened)')
+    if flat:
+        return [], flat[0].body, 'flattened'
+    return nested[0][0], nested[0][1], 'nested'
 
 
 def free_names(loop):
